@@ -135,7 +135,7 @@ impl Explorer<'_> {
                 t.sample(|| json!({"trail": h.trail.iter().map(|a| a.to_json()).collect::<Vec<_>>()}));
             }
         }
-        if d >= self.depth {
+        if d >= self.depth || self.report.over_budget("history DFS") {
             return;
         }
         for a in h.actions(&self.templates, &self.ts_classes) {
